@@ -854,13 +854,18 @@ where
             }
             prev_end = r.end;
         }
-        if res.is_ok() && rows.last().map(|r| r.end) != Some(fde.end_address()) {
-            verdict = Some(format!("last-end {:?} != fde end {}", rows.last().map(|r| r.end), fde.end_address()));
+        // the FDE's end address, computed here: (initial + length) in the CIE's address size
+        if let Some(mask) = mask_of(q.asz) {
+            let end = fde.initial_address().wrapping_add(fde.len()) & mask;
+            if res.is_ok() && rows.last().map(|r| r.end) != Some(end) {
+                verdict = Some(format!("last-end {:?} != fde end {}", rows.last().map(|r| r.end), end));
+            }
         }
     }
     if verdict.is_none() {
         let (rc, nc) = caps(storage)?;
-        let (orows, oout) = oracle_table(q, fde.initial_address(), fde.end_address(), rc, nc);
+        let end = fde.initial_address().wrapping_add(fde.len()) & mask_of(q.asz).unwrap_or(u64::MAX);
+        let (orows, oout) = oracle_table(q, fde.initial_address(), end, rc, nc);
         let n = orows.len().min(texts.len());
         if orows[..n] != texts[..n] {
             let k = (0..n).find(|&k| orows[k] != texts[k]).unwrap();
